@@ -4,6 +4,7 @@
   the located subtree, plus the canonical text the correspondence compares.  Core Lean only.
 -/
 import SonicSpec.Model.Search
+import SonicSpec.Model.Num
 namespace SonicSpec.Search
 open SonicSpec SonicSpec.Json
 
@@ -170,6 +171,74 @@ def intStr : Option Int → String
   | some i => toString i
   | none => "E"
 
+/-! ## floating-point views, through the exact number model (`Num.toF64Bits` = the correctly
+    rounded binary64 of the literal, `strconv.ParseFloat(lit, 64)`; magnitude too large = error) -/
+
+/-- `StrictFloat64` / `Float64` of a number node: the bits, or `none` when the conversion fails -/
+def f64Of (lit : Bytes) : Option UInt64 :=
+  match Num.toF64Bits lit with
+  | .ok b => some b
+  | .error _ => none
+
+def f64View : JVal → Option (Option UInt64)
+  | .num l => some (f64Of l)
+  | _ => none
+
+/-- generic value with numbers as float64: what `Interface()` yields; `none` when some number of
+    the value does not fit (the conversion then returns an error for the whole value) -/
+inductive FVal where
+  | null
+  | bool (b : Bool)
+  | num (bits : UInt64)
+  | str (s : Bytes)
+  | arr (xs : List FVal)
+  | map (kvs : List (Bytes × FVal))
+deriving Repr, Inhabited
+
+mutual
+def toFloatGeneric : JVal → Option FVal
+  | .null => some .null
+  | .bool b => some (.bool b)
+  | .num l => (f64Of l).map FVal.num
+  | .str b => some (.str (unescapeKey b))
+  | .arr xs => (toFloatList xs).map FVal.arr
+  | .obj kvs => (toFloatMap kvs []).map FVal.map
+def toFloatList : List JVal → Option (List FVal)
+  | [] => some []
+  | x :: xs =>
+    match toFloatGeneric x with
+    | none => none
+    | some y => (toFloatList xs).map (y :: ·)
+def toFloatMap : List (Bytes × JVal) → List (Bytes × FVal) → Option (List (Bytes × FVal))
+  | [], acc => some acc
+  | (k, v) :: kvs, acc =>
+    match toFloatGeneric v with
+    | none => none
+    | some y => toFloatMap kvs (mapInsert (unescapeKey k) y acc)
+end
+
+def hexDigitLower (n : Nat) : Char := if n < 10 then Char.ofNat (48 + n) else Char.ofNat (87 + n)
+
+/-- `strconv.FormatUint(n, 16)` -/
+def natHex (n : Nat) : String :=
+  let rec go : Nat → Nat → List Char → List Char
+    | 0, _, acc => acc
+    | fuel + 1, n, acc => if n < 16 then hexDigitLower n :: acc else go fuel (n / 16) (hexDigitLower (n % 16) :: acc)
+  String.ofList (go 17 n [])
+
+partial def canonF : FVal → String
+  | .null => "n"
+  | .bool true => "t"
+  | .bool false => "f"
+  | .num b => "F" ++ natHex b.toNat
+  | .str s => "s" ++ hexs s
+  | .arr xs => "[" ++ joinWith "," (xs.map canonF) ++ "]"
+  | .map kvs => "{" ++ joinWith "," (kvs.map fun (k, v) => hexs k ++ ":" ++ canonF v) ++ "}"
+
+def floatFields (v : JVal) : String :=
+  ";f=" ++ (match f64View v with | some (some b) => natHex b.toNat | some none => "E" | none => "-")
+    ++ ";cf=" ++ (match toFloatGeneric v with | some g => canonF g | none => "E")
+
 /-- the record of views of a located value; `raw = none` prints `*` (the tree specification
     does not speak about the slice) -/
 def viewRecord (raw : Option Bytes) (v : JVal) : String :=
@@ -182,6 +251,7 @@ def viewRecord (raw : Option Bytes) (v : JVal) : String :=
     ++ ";i=" ++ (match v with | .num l => intStr (int64Of l) | _ => "-")
     ++ ";b=" ++ (match boolView v with | some true => "1" | some false => "0" | none => "-")
     ++ ";it=" ++ iterView v
+    ++ floatFields v
 
 def eventStr : Event → String
   | .null => "n"
